@@ -2,6 +2,7 @@ import SamplyModel.Lemmas.ProfileCanonical
 import SamplyModel.Lemmas.ProfileIdentSer
 import SamplyModel.Lemmas.ProfileDecode
 import SamplyModel.Lemmas.ProfileFrameDesc
+import SamplyModel.Lemmas.ProfileNsym
 /-!
 # C03 — every serialized profile is internally consistent (no dangling index)
 
@@ -316,6 +317,37 @@ theorem C03_canonical_label_frame (pre post : List Op) (t str : Nat)
   obtain ⟨th', ht', hk', hd'⟩ := C03_frame_desc_stable _ post h t i th2 k d ht2 hk2 hdesc
   obtain ⟨st, hst, htid, hdec⟩ := C03_frame_decode _ h s hs t th' ht'
   exact ⟨d, hd, th', st, ht', hst, htid, by rw [hdec i k hk', hd']⟩
+
+/-- **Canonical interning of native symbols.** If `handle_for_native_symbol(thread, lib, symbol)` returned
+the handle `(t, j)` at some point of an accepted history, then in the profile serialized at the end of the
+history row `j` of that thread's `nativeSymbols` table decodes (`decodeNsym`: `libIndex → libs`, `address`,
+`functionSize`, `name → stringArray`) to the identity of the library behind the handle `lib`, the symbol's
+address, and a size / name which are the passed symbol's if the pair (library, address) had not been
+registered on this thread before (no earlier row of the thread carries it), and which are otherwise those of
+the existing row: a description the row had before the call is unchanged. -/
+theorem C03_canonical_native_symbol (pre post : List Op) (t lib : Nat) (sym : Sym) (j : Nat)
+    (h : Accepted (pre ++ .nativeSymbol t lib sym :: post) = true)
+    (hout : (step (run pre) (.nativeSymbol t lib sym)).2 = .h [t, j])
+    (s : SerProfile) (hs : serialize (run (pre ++ .nativeSymbol t lib sym :: post)) = some s) :
+    ∃ th0 th st id sz nm, (run pre).threads[t]? = some th0 ∧
+      (run (pre ++ .nativeSymbol t lib sym :: post)).threads[t]? = some th ∧ st ∈ s.threads ∧
+      st.tid = idString th.tid ∧ (run pre).libs.all[lib]? = some id ∧
+      decodeNsym s st j = some (id, sym.addr, sz, nm) ∧
+      ((∀ u : Nat, (run pre).libs.used[u]? = some lib →
+          ¬ ∃ j' : Nat, th0.nsyms.libs[j']? = some u ∧ th0.nsyms.addrs[j']? = some sym.addr) →
+        sz = sym.size ∧ nm = sym.name) ∧
+      (∀ d0, (run pre).nsymDescOf th0 j = some d0 → d0 = (id, sym.addr, sz, nm)) := by
+  obtain ⟨hpre, _⟩ := C03_accepted_split pre _ post h
+  obtain ⟨th0, th2, id, sz, nm, e1, e2, e3, e4, e5, e6⟩ :=
+    nativeSymbol_step (run pre) (Inv.run pre hpre) t lib sym j hout
+  have hall : pre ++ .nativeSymbol t lib sym :: post = (pre ++ [.nativeSymbol t lib sym]) ++ post := by simp
+  have hrun : run (pre ++ [.nativeSymbol t lib sym]) = (step (run pre) (.nativeSymbol t lib sym)).1 := by
+    simp [run, List.foldl_append]
+  rw [hall] at h hs ⊢
+  rw [← hrun] at e2 e4
+  obtain ⟨th', ht', hd'⟩ := P.nsymDescOf_stable (ext_of_accepted _ post h) t th2 e2 j _ e4
+  obtain ⟨st, hst, htid, hdec⟩ := decodeNsym_of_inv _ (Inv.run _ h).2 s hs t th' ht'
+  exact ⟨th0, th', st, id, sz, nm, e1, ht', hst, htid, e3, by rw [hdec j, hd'], e5, e6⟩
 
 /-- **Frame handles are stable.** The frame key behind a valid frame handle is the same at the end of any
 continuation of the history. -/
